@@ -171,7 +171,7 @@ CHECKS["C18"] = dict(parts=[part("finished-stays-finished", "pure", "TestC18", 5
 _PURE_NOTE = "Pure library code called in-process; no hooks needed. Built with go1.26.8."
 META.update({
     "C05": dict(
-        text="Exploration: all 81 predefined maps over clients {'*',a} x IDs {1,2} x names {x,y,absent} (exhaustive) plus the repository's own topics.yaml, then random maps over 4 clients, 8 IDs and 5 names, each queried for every client, ID and name; oracle: GetTopicName equals a reference lookup (client entry, else '*' entry) and every ID GetTopicID returns maps back to the queried name for that client (queries repeated, the implementation iterates Go maps).",
+        text="Exploration: all 256 predefined maps over clients {'*',a} x IDs {1,2} x names {x,y,the empty name,absent} (exhaustive) plus the repository's own topics.yaml, then random maps over 4 clients, 8 IDs, 5 names and the empty name, each queried for every client, ID and name; oracle: GetTopicName equals a reference lookup (client entry, else '*' entry) and every ID GetTopicID returns maps back to the queried name for that client (queries repeated, the implementation iterates Go maps).",
         note=_PURE_NOTE, technique="exhaustive enumeration of the small sub-space + PBT; oracle = reference lookup and a round-trip relation"),
     "C18": dict(
         text="Exploration (race-detector build, virtual clock): generated schedules in which Success/Fail/Proceed/context-cancel are released together on separate goroutines at instants that coincide with timer expiries, with zero and minimal delays and failing retry callbacks; oracle: completion callback exactly once, Err() stable after Done, no retry after a quiescent point with Done closed, no panic, no race report (process death is attributed to the case written to disk beforehand).",
